@@ -65,13 +65,20 @@ C04 ==
       (HasRun(R, b, "wasm") /\ HasRun(R, b, "ts") /\ ~ImplDefined(R, b)) => SameRun(R, b, "wasm", b, "ts")
 
 \* ---- C02: no optimisation configuration changes behaviour ------------------------------------
-Unopt == "opt:0"
+\* the reference build: the un-optimised MIR ("raw") when recorded, else the all-switches-off configuration
+Unopt == IF l > 1 /\ "raw" \in BuildNames(R) THEN "raw" ELSE "opt:0"
+\* The TypeScript runs are compared with the TypeScript reference run only when that reference agrees
+\* with the WebAssembly reference run: where the two back ends already disagree un-optimised (C04's
+\* business, e.g. the recorded Math.floor finding) folding legitimately changes what TypeScript prints.
+TsReferenceAgrees ==
+  (HasRun(R, Unopt, "wasm") /\ HasRun(R, Unopt, "ts")) => SameRun(R, Unopt, "wasm", Unopt, "ts")
 C02 ==
   (l > 1 /\ Unopt \in BuildNames(R) /\ Ok(R, Unopt) /\ ~ImplDefined(R, Unopt)) =>
     \A b \in BuildNames(R) :
       /\ Ok(R, b)            \* an optimisation must not crash the compiler either
       /\ \A k \in {"wasm", "ts"} :
-           (HasRun(R, Unopt, k) /\ HasRun(R, b, k) /\ ClassOf(R, b, k).class # "budget") => SameRun(R, Unopt, k, b, k)
+           (HasRun(R, Unopt, k) /\ HasRun(R, b, k) /\ ClassOf(R, b, k).class # "budget"
+            /\ (k = "ts" => TsReferenceAgrees)) => SameRun(R, Unopt, k, b, k)
       /\ (Has(R.builds[Unopt], "wasm_valid") /\ R.builds[Unopt].wasm_valid) => R.builds[b].wasm_valid
 
 \* ---- C03: accepted programs never go wrong ---------------------------------------------------
